@@ -45,10 +45,19 @@ type Prog struct {
 	Decls  []Decl
 	Rules  []Rule
 	Broken bool // append a syntax error
+	// Off: a valid program without instructions: 1 = every line commented out,
+	// 2 = the file truncated to nothing
+	Off int
+	// Conv: extra declarations and rules that call conversion builtins; their
+	// rules listen to tokens no generated line carries, so they only matter to
+	// the compiler (type inference).  1: `cf = float($1)` on a string capture;
+	// 2: `ch = float(cg)` where gauge cg is only typed by a later `cg = $1`
+	// with a (\d+) capture; 3: both.
+	Conv int
 }
 
 func (p *Prog) Clone() *Prog {
-	q := &Prog{Lead: p.Lead, Trail: p.Trail, Broken: p.Broken}
+	q := &Prog{Lead: p.Lead, Trail: p.Trail, Broken: p.Broken, Off: p.Off, Conv: p.Conv}
 	for _, d := range p.Decls {
 		d.Keys = append([]string{}, d.Keys...)
 		q.Decls = append(q.Decls, d)
@@ -69,6 +78,18 @@ func index(d Decl) string {
 }
 
 func (p *Prog) Source() string {
+	switch p.Off {
+	case 2:
+		return ""
+	case 1:
+		q := p.Clone()
+		q.Off = 0
+		var b strings.Builder
+		for _, l := range strings.Split(strings.TrimSuffix(q.Source(), "\n"), "\n") {
+			b.WriteString("# " + l + "\n")
+		}
+		return b.String()
+	}
 	var b strings.Builder
 	for i := 0; i < p.Lead; i++ {
 		fmt.Fprintf(&b, "# lead %d\n", i)
@@ -85,6 +106,12 @@ func (p *Prog) Source() string {
 			b.WriteString(" buckets 1, 2, 4")
 		}
 		b.WriteString("\n")
+	}
+	if p.Conv&1 != 0 {
+		b.WriteString("gauge cf\n")
+	}
+	if p.Conv&2 != 0 {
+		b.WriteString("gauge cg\ngauge ch\n")
 	}
 	for _, r := range p.Rules {
 		fmt.Fprintf(&b, "/^%s (\\S+)/ {\n", r.Tok)
@@ -114,6 +141,12 @@ func (p *Prog) Source() string {
 			}
 		}
 		b.WriteString("}\n")
+	}
+	if p.Conv&1 != 0 {
+		b.WriteString("/^k (\\S+)/ {\n  cf = float($1)\n}\n")
+	}
+	if p.Conv&2 != 0 {
+		b.WriteString("/^k (\\S+)/ {\n  ch = float(cg)\n}\n/^j (\\d+)/ {\n  cg = $1\n}\n")
 	}
 	if p.Broken {
 		b.WriteString("} {\n")
@@ -150,6 +183,9 @@ func DurNs(s string) int64 {
 // every dimension.
 func (p *Prog) Effects(line string) []Effect {
 	var out []Effect
+	if p.Off != 0 {
+		return nil
+	}
 	tok, word, ok := strings.Cut(line, " ")
 	if !ok || word == "" || strings.ContainsAny(word, " \t") {
 		return nil
@@ -202,6 +238,8 @@ type GenOpts struct {
 	Hidden   bool // allow hidden declarations
 	Expire   bool // allow `del ... after`
 	Strptime bool // allow a strptime on the captured word (always a runtime error)
+	ProgKey  bool // allow a dimension named `prog` (the label the exporter adds itself)
+	Conv     bool // allow the conversion-builtin extras (Prog.Conv)
 }
 
 func genDecl(r *vlib.Rand, name string, o GenOpts) Decl {
@@ -212,6 +250,9 @@ func genDecl(r *vlib.Rand, name string, o GenOpts) Decl {
 		d.Keys = []string{"k"}
 	case 4:
 		d.Keys = []string{"k", "j"}
+	}
+	if o.ProgKey && r.Chance(18) {
+		d.Keys = []string{"prog"}
 	}
 	if d.Kind != "counter" && d.Kind != "histogram" && d.Kind != "text" && r.Chance(25) {
 		d.Float = true
@@ -313,6 +354,9 @@ func Gen(r *vlib.Rand, o GenOpts) *Prog {
 		p.Decls = append(p.Decls, genDecl(r, perm[i], o))
 	}
 	p.genRules(r, o)
+	if o.Conv && r.Chance(35) {
+		p.Conv = 1 + r.Intn(3)
+	}
 	return p
 }
 
@@ -448,6 +492,12 @@ func Edit(r *vlib.Rand, p *Prog, kind string, o GenOpts) *Prog {
 				}
 			}
 		}
+	case "comment-out":
+		q.Off = 1
+	case "truncate":
+		q.Off = 2
+	case "switch-on":
+		q.Off = 0
 	case "syntax-error":
 		q.Broken = true
 	case "fresh":
